@@ -256,27 +256,38 @@ def _once(case, acc, tree, labels):
         except Exception as exc:  # noqa: BLE001 - the exception class is the compared outcome
             return ("raised", type(exc).__name__)
 
-    # a callback that raises StopIteration (next() on an exhausted iterator inside it): findall fails the way PreOrderIter fails
-    def stopper():
+    # a callback that raises (next() on an exhausted iterator, n.children[0] on a leaf, a failed lookup ...): findall and
+    # find fail the way PreOrderIter fails for the same arguments - whatever the exception class is
+    def raiser(exc_class, at):
         calls = [0]
 
         def pred(node):
             calls[0] += 1
-            if calls[0] == 2:
-                raise StopIteration()
+            if calls[0] == at:
+                raise exc_class("raised by the callback")
             return id(node) not in hide_ids
 
         return pred
 
-    for which in ("filter_", "stop"):
-        try:
-            want = ("ok", labels.labels(tuple(anytree.PreOrderIter(start, maxlevel=maxlevel, **{which: stopper()}))))
-        except Exception as exc:  # noqa: BLE001
-            want = ("raised", type(exc).__name__)
-        for mod in (search, cachedsearch):
-            got = attempt(mod.findall, **{which: stopper()})
-            if got != want:
-                raise Violation("findall-vs-preorderiter", "with a %s that raises StopIteration on its second call PreOrderIter gives %r, %s.findall %r" % (which, want, mod.__name__, got))
+    sweep = case.get("raise_sweep", 0)
+    classes = (StopIteration, IndexError, KeyError, LookupError, ValueError, AttributeError, RuntimeError, ZeroDivisionError, OSError, anytree.search.CountError)
+    for offset, exc_class in enumerate(classes):
+        at = 1 + (sweep + offset) % 3
+        for which in ("filter_", "stop"):
+            try:
+                seq = tuple(anytree.PreOrderIter(start, maxlevel=maxlevel, **{which: raiser(exc_class, at)}))
+                want = ("ok", labels.labels(seq))
+                want_find = ("ok", labels.label(seq[0] if seq else None)) if len(seq) <= 1 else ("raised", "CountError")
+            except Exception as exc:  # noqa: BLE001
+                want = want_find = ("raised", type(exc).__name__)
+            for mod in (search, cachedsearch):
+                got = attempt(mod.findall, **{which: raiser(exc_class, at)})
+                if got != want:
+                    raise Violation("findall-vs-preorderiter", "with a %s that raises %s on call %d PreOrderIter gives %r, %s.findall %r" % (which, exc_class.__name__, at, want, mod.__name__, got))
+                got = attempt(mod.find, **{which: raiser(exc_class, at)})
+                if got != want_find:
+                    raise Violation("find-vs-preorderiter", "with a %s that raises %s on call %d find must give %r (from what PreOrderIter does), %s.find gives %r" % (which, exc_class.__name__, at, want_find, mod.__name__, got))
+    acc.tag("raising_callback_comparisons", len(classes) * 8)
     for name_ in ("findall", "find"):
         for which in ("filter_", "stop"):
             plain = attempt(getattr(search, name_), **{which: flaky()})
